@@ -84,6 +84,13 @@ Theorem C17_overlay_all_succeed :
       r = Ok tt /\ Forall (visible s0' s1) (prefixes P).
 Proof. exact ovl_create_dir_all_concurrent. Qed.
 
+(** "visible" is what the caller observes: exists through the overlay answers true *)
+Theorem C17_visible_is_exists : forall (hs : list hstate) (lg : list (nat * fscall)) (ft : option (nat * nat))
+    (s0 s1 : mstate) (q : list (list N)),
+  q <> [] -> visible s0 s1 q ->
+  run bhandler (ovl_exists (v0, []) [(v1, [])] q) (mstore2 s0 s1 hs lg ft) = (mstore2 s0 s1 hs lg ft, Ok true).
+Proof. exact visible_exists. Qed.
+
 (** non-vacuity: /a exists in the lower layer and was removed through the overlay (its marker is in the
     write layer); two threads re-create /a/x and /a/y under an interleaving that switches inside
     create_dir; both return Ok, the marker is gone, the three directories are in the write layer *)
@@ -141,3 +148,4 @@ Print Assumptions C17_overlay_all_succeed.
 Print Assumptions C17_overlay_example.
 Print Assumptions C17_overlay_hypotheses.
 Print Assumptions C17_altroot_all_succeed.
+Print Assumptions C17_visible_is_exists.
